@@ -1130,3 +1130,12 @@ m('T1e-structseq-probe-result-ignored', 'C18', 'T1e', 'IsStructSequenceClassImpl
                 if (!result) [[unlikely]] {
                     continue;
                 }""")
+m('H6-metadata-mismatch-skips-to-the-next-node', 'C06', 'H6', 'EqualTo/', 'src/treespec/richcomparison.cpp',
+  """        if (a->node_data && a->node_data.not_equal(b->node_data)) [[likely]] {
+            return false;
+        }
+        EXPECT_EQ(a->num_leaves, b->num_leaves);""",
+  """        if (a->node_data && a->node_data.not_equal(b->node_data)) [[likely]] {
+            continue;
+        }
+        EXPECT_EQ(a->num_leaves, b->num_leaves);""")
